@@ -530,6 +530,8 @@ def r3(ctx):
                                     continue
                             cands.append(s)
                         src = cands[-1].value if cands else e
+                    while isinstance(src, ast.IfExp) and ev.test(src.test) is not None:   # a container selected by a conditional expression
+                        src = src.body if ev.test(src.test) else src.orelse
                     t = norm(src)
                     want = ("spsparse.eye(n).tocsc()", "scipy.sparse.eye(n).tocsc()") if sparse else ("numpy.eye(n)",)
                     ok = t in want and v == ("mat", N, N)
@@ -558,7 +560,11 @@ def r4(ctx):
                   f"FACTOR_FORMAT_REDUCED is `{norm(fmt) if fmt is not None else None}`")
     gf = B.methods["get_factor_format"]
     r = returns_of(gf.node)
-    ok = bool(r) and norm(r[0].value) == "self.FACTOR_FORMAT_REDUCED if reduced_rank else self.FACTOR_FORMAT"
+    try:
+        tc = sym.truth_cases(sym.outcomes(gf.node), ["reduced_rank"], kinds=("return",))
+    except sym.Unmodelled:
+        tc = {}
+    ok = tc.get((True,)) == [("return", "self.FACTOR_FORMAT_REDUCED")] and tc.get((False,)) == [("return", "self.FACTOR_FORMAT")]
     ctx.check(ok, "C11.R4", "the reduced format is used exactly for reduced codings", gf.where, ctx.construct(gf, text="factor format"), f"returns `{norm(r[0].value) if r else None}`")
 
 
@@ -697,10 +703,10 @@ def r7(ctx):
     for st in ast.walk(H.node):
         if isinstance(st, ast.Assign) and isinstance(st.targets[0], ast.Subscript) and norm(st.targets[0].value) == "contr" and isinstance(st.targets[0].slice, ast.Tuple):
             idx = tuple(linform(x) and tuple(sorted(linform(x).items())) for x in st.targets[0].slice.elts)
-            par = P.parent(st)
-            branch = None
-            if isinstance(par, ast.If) and norm(par.test) == "self.reverse":
-                branch = "reverse" if st in par.body else "forward"
+            from ..util import atom_mapper, reach_condition, truth_table
+            rc = reach_condition(P, st, keep=lambda c: norm(c).replace("not ", "") == "self.reverse")
+            tt = truth_table(rc, atom_mapper({"self.reverse": 0}), 1) if rc is not None else None
+            branch = {(False, True): "reverse", (True, False): "forward"}.get(tt)
             stores[branch] = (idx, linform(st.value))
     want = {"reverse": ((tuple(sorted(_lf("i + 1").items())), tuple(sorted(_lf("i").items()))), _lf("i + 1")),
             "forward": ((tuple(sorted(_lf("i").items())), tuple(sorted(_lf("i").items()))), _lf("n - i - 1"))}
